@@ -461,13 +461,13 @@ def check_dispatch(ctx, lib):
         b = ctx.fn(fn, rule=rule)
         if b is None:
             continue
-        o = Origins(b, lib)
-        br = Branches(b, o)
-        blk, ve = first_discr_switch(b, br, TOKEN)
-        if ve is None:
+        from ..parsing import KindDispatch
+        kd = KindDispatch(lib, b)
+        if kd.first_consume is None:
             ctx.missing(rule, fn, f"{fn} dispatch switch")
             continue
-        acc = accept_set(b, blk, ve)
+        # kind by kind: is the consumed token answered without an error on some path?
+        acc = {K for K in ALL_TOKENS if kd.accepts(K)}
         ctx.check(acc == want, rule, fn.split("::")[-1],
                   f"{fn.split('::')[-1]} answers without an error exactly for the grammar's token kinds (missing {sorted(want-acc)}, extra {sorted(acc-want)})", b.span)
     # parse_dot
